@@ -68,7 +68,7 @@ class Terms:
     def place(self, p, depth=0):
         s = place_str(p)
         if s in self._upvars:
-            return ("up", self._upvars[s])
+            return _upvar_term(self._upvars[s])
         t = self.local(p["l"], depth)
         proj = p.get("p") or []
         cur = {"l": p["l"], "p": []}
@@ -76,7 +76,7 @@ class Terms:
             cur["p"].append(e)
             cs = place_str(cur)
             if cs in self._upvars:
-                t = ("up", self._upvars[cs])
+                t = _upvar_term(self._upvars[cs])
                 continue
             k = e["k"]
             if k == "deref":
@@ -108,7 +108,7 @@ class Terms:
             else:
                 t = ("proj", t, k)
             if t in self._upterms:
-                t = ("up", self._upterms[t])
+                t = _upvar_term(self._upterms[t])
         return t
 
     def operand(self, o, depth=0):
@@ -162,6 +162,15 @@ class Terms:
         if k == "repeat":
             return ("repeat", self.operand(rv["op"], depth), rv["n"])
         return ("k", k, None)
+
+
+def _upvar_term(name):
+    """Precise closure captures are named `var__field__..`: present them as field paths."""
+    parts = name.split("__")
+    t = ("up", parts[0])
+    for f in parts[1:]:
+        t = ("f", t, None, f)
+    return t
 
 
 # ---------------------------------------------------------------------------------------
